@@ -364,8 +364,8 @@ SPECS["C13"] = v1spec(
           "reported as {value, 1.0, Offset, Extent} with the byte offset known from the construction (cross-checked with strings.Index on the normalised string); NearestMatch(value) = {value, 1.0}. "
           "One worker per child process: MultipleMatch computes in goroutines, so a panic kills the process and the driver attributes it to the case in flight. "
           "Non-trivial = a planted value was searched; distinct = distinct (unknown, threshold, normalisers)."),
-    floor_evals={"quick": 2500, "thorough": 80000},
-    floor_nontrivial={"quick": 1200, "thorough": 40000},
+    floor_evals={"quick": 10000, "thorough": 150000},
+    floor_nontrivial={"quick": 5000, "thorough": 80000},
     timeout={"quick": 1500, "thorough": 3 * 3600},
 )
 
